@@ -7,7 +7,7 @@
        piece_inv s :  the lists cover the board  /\  k_piece (r_key s) = scratch piece key  /\  k_pawn = scratch pawn key
 
    whatever order the lists are in (swap-remove permutes them; XOR does not care). *)
-From CV Require Import Engine.PositionRep Engine.RepProofs Engine.RepRoundTrip Base.NIter.
+From CV Require Import Engine.PositionRep Engine.RepProofs Engine.RepRoundTrip Base.NIter Base.Bits Chess.RulesFacts.
 From Coq Require Import Lia List Btauto ZArith Bool.
 Import ListNotations.
 Local Open Scope N_scope.
@@ -113,12 +113,46 @@ Section K.
        cbn [nth upd fold_left]; cbv iota; xor_solve).
   Qed.
 
+  (* ---- the same two components as functions of the BOARD alone (no lists, no history) ---- *)
+  Definition cp (pc sq : N) : N := if (pc =? 0) || (pc_kind pc =? PAWN) then 0 else z_piece zt pc sq.
+  Definition cw (pc sq : N) : N := if pc_kind pc =? PAWN then z_piece zt pc sq else 0.
+  Definition SX (c : N -> N -> N) (b : list N) (L : list N) : N := fold_right (fun sq acc => N.lxor (c (nthd b sq 0) sq) acc) 0 L.
+  Definition bkp (b : list N) : N := SX cp b all_squares.
+  Definition bkw (b : list N) : N := SX cw b all_squares.
+
+  Lemma SX_upd_notin c b L i x : ~ In i L -> SX c (updN b i x) L = SX c b L.
+  Proof.
+    induction L as [|h t IH]; intro H; cbn [SX fold_right]; [reflexivity|].
+    fold (SX c (updN b i x) t). fold (SX c b t). rewrite IH by (intro K; apply H; right; exact K).
+    rewrite nthd_updN_other by (intro K; apply H; left; symmetry; exact K). reflexivity.
+  Qed.
+  Lemma SX_upd c b L i x : NoDup L -> In i L -> (N.to_nat i < length b)%nat ->
+    SX c (updN b i x) L = N.lxor (N.lxor (SX c b L) (c (nthd b i 0) i)) (c x i).
+  Proof.
+    intros Hnd Hin Hlen. induction L as [|h t IH]; [destruct Hin|]. inversion Hnd as [|? ? Hnot Hnd']; subst.
+    cbn [SX fold_right]. fold (SX c (updN b i x) t). fold (SX c b t).
+    destruct (N.eq_dec h i) as [->|Hne].
+    - rewrite SX_upd_notin by exact Hnot. rewrite nthd_updN_same by exact Hlen. xor_solve.
+    - destruct Hin as [Hin|Hin]; [contradiction|]. rewrite (IH Hnd' Hin). rewrite nthd_updN_other by congruence. xor_solve.
+  Qed.
+  Lemma bk_upd (b : list N) i x : length b = 64%nat -> i < 64 ->
+    bkp (updN b i x) = N.lxor (N.lxor (bkp b) (cp (nthd b i 0) i)) (cp x i) /\
+    bkw (updN b i x) = N.lxor (N.lxor (bkw b) (cw (nthd b i 0) i)) (cw x i).
+  Proof.
+    intros Hl Hi. split; apply SX_upd; try apply NoDup_all_squares; try (apply in_all_squares; exact Hi); lia.
+  Qed.
+  Lemma cp0 sq : cp 0 sq = 0. Proof. reflexivity. Qed.
+  Lemma cw0 sq : cw 0 sq = 0. Proof. reflexivity. Qed.
+  Lemma cp_toggle pc sq : pc <> 0 -> cp pc sq = (if pc_kind pc =? PAWN then 0 else z_piece zt pc sq).
+  Proof. intro H. unfold cp. destruct (pc =? 0) eqn:E; [apply N.eqb_eq in E; contradiction|reflexivity]. Qed.
+
   (* ---- the invariant: the piece lists cover the board, the two piece components equal their scratch values ---- *)
   Definition cover (s : rep) : Prop :=
     forall sq, sq < 64 -> nthd (r_board s) sq 0 <> 0 -> In sq (nthd (r_lists s) (nthd (r_board s) sq 0) []).
   Definition piece_inv (s : rep) : Prop :=
     length (r_board s) = 64%nat /\ length (r_lists s) = 13%nat /\ (forall sq, sq < 64 -> nthd (r_board s) sq 0 < 13) /\
-    cover s /\ k_piece (r_key s) = pk (r_lists s) /\ k_pawn (r_key s) = wkp (r_lists s).
+    cover s /\ k_piece (r_key s) = pk (r_lists s) /\ k_pawn (r_key s) = wkp (r_lists s) /\
+    k_piece (r_key s) = bkp (r_board s) /\ k_pawn (r_key s) = bkw (r_board s).
 
   Lemma nthd_upd_board (b : list N) i j x : length b = 64%nat -> i < 64 ->
     nthd (updN b i x) j 0 = if j =? i then x else nthd b j 0.
@@ -140,13 +174,13 @@ Section K.
     k_pawn (toggle_piece zt k pc sq) = (if pc_kind pc =? PAWN then N.lxor (k_pawn k) (z_piece zt pc sq) else k_pawn k).
   Proof. unfold toggle_piece. destruct (pc_kind pc =? PAWN); split; reflexivity. Qed.
 
-  Lemma add_piece_inv s pc sq : piece_inv s -> 1 <= pc <= 12 -> sq < 64 -> piece_inv (add_piece zt s pc sq).
+  Lemma add_piece_inv s pc sq : piece_inv s -> 1 <= pc <= 12 -> sq < 64 -> nthd (r_board s) sq 0 = 0 -> piece_inv (add_piece zt s pc sq).
   Proof.
-    intros [Hb [Hl [Hc [Hcov [Hk Hw]]]]] Hpc Hsq.
+    intros [Hb [Hl [Hc [Hcov [Hk [Hw [Hbk Hbw]]]]]]] Hpc Hsq Hempty.
     assert (Hb' : length (updN (r_board s) sq pc) = 64%nat) by (rewrite updN_length; exact Hb).
     assert (Hl' : forall x, length (updN (r_lists s) pc x) = 13%nat) by (intro x; rewrite updN_length; exact Hl).
     unfold piece_inv, add_piece, with_board, cover. cbn [r_board r_lists r_key].
-    split; [exact Hb'|]. split; [apply Hl'|]. split; [|split; [|split]].
+    split; [exact Hb'|]. split; [apply Hl'|]. split; [|split; [|split; [|split; [|split]]]].
     - intros i Hi. rewrite nthd_upd_board by assumption. destruct (i =? sq); [lia|apply Hc; exact Hi].
     - intros i Hi. rewrite nthd_upd_board by assumption. destruct (i =? sq) eqn:E.
       + apply N.eqb_eq in E. subst i. intros _. rewrite nthd_upd_lists by (first [assumption|lia]). rewrite N.eqb_refl.
@@ -161,17 +195,21 @@ Section K.
     - destruct (keys_upd (r_lists s) pc (nthd (r_lists s) pc [] ++ [sq]) Hl Hpc) as [_ ->].
       destruct (tgl_keys (r_key s) pc sq) as [_ ->]. destruct (pc_kind pc =? PAWN); [|exact Hw].
       rewrite Hw, xl_app. xor_solve.
+    - destruct (bk_upd (r_board s) sq pc Hb Hsq) as [-> _]. destruct (tgl_keys (r_key s) pc sq) as [-> _].
+      rewrite Hempty, cp0, (cp_toggle pc sq) by lia. rewrite Hbk. destruct (pc_kind pc =? PAWN); xor_solve.
+    - destruct (bk_upd (r_board s) sq pc Hb Hsq) as [_ ->]. destruct (tgl_keys (r_key s) pc sq) as [_ ->].
+      rewrite Hempty, cw0. unfold cw. rewrite Hbw. destruct (pc_kind pc =? PAWN); xor_solve.
   Qed.
 
   Lemma remove_piece_inv s sq : piece_inv s -> sq < 64 -> nthd (r_board s) sq 0 <> 0 -> piece_inv (remove_piece zt s sq).
   Proof.
-    intros [Hb [Hl [Hc [Hcov [Hk Hw]]]]] Hsq Hne.
+    intros [Hb [Hl [Hc [Hcov [Hk [Hw [Hbk Hbw]]]]]]] Hsq Hne.
     set (pc := nthd (r_board s) sq 0) in *.
     assert (Hpc : 1 <= pc <= 12) by (pose proof (Hc sq Hsq); fold pc in H; lia).
     pose proof (Hcov sq Hsq Hne) as Hin. fold pc in Hin.
     assert (Hb' : length (updN (r_board s) sq 0) = 64%nat) by (rewrite updN_length; exact Hb).
     unfold piece_inv, remove_piece, with_board, cover. cbn [r_board r_lists r_key]. fold pc. change NO_PIECE with 0.
-    split; [exact Hb'|]. split; [rewrite updN_length; exact Hl|]. split; [|split; [|split]].
+    split; [exact Hb'|]. split; [rewrite updN_length; exact Hl|]. split; [|split; [|split; [|split; [|split]]]].
     - intros i Hi. rewrite nthd_upd_board by assumption. destruct (i =? sq); [lia|apply Hc; exact Hi].
     - intros i Hi. rewrite nthd_upd_board by assumption. destruct (i =? sq) eqn:E; [intro X; contradiction X; reflexivity|].
       apply N.eqb_neq in E. intro Hn. rewrite nthd_upd_lists by (first [assumption|lia]).
@@ -184,18 +222,22 @@ Section K.
     - destruct (keys_upd (r_lists s) pc (swap_remove (nthd (r_lists s) pc []) sq) Hl Hpc) as [_ ->].
       destruct (tgl_keys (r_key s) pc sq) as [_ ->]. destruct (pc_kind pc =? PAWN); [|exact Hw].
       rewrite Hw, (xl_swap_remove pc _ sq Hin). xor_solve.
+    - destruct (bk_upd (r_board s) sq 0 Hb Hsq) as [-> _]. destruct (tgl_keys (r_key s) pc sq) as [-> _].
+      fold pc. rewrite cp0, (cp_toggle pc sq) by lia. rewrite Hbk. destruct (pc_kind pc =? PAWN); xor_solve.
+    - destruct (bk_upd (r_board s) sq 0 Hb Hsq) as [_ ->]. destruct (tgl_keys (r_key s) pc sq) as [_ ->].
+      fold pc. rewrite cw0. unfold cw. rewrite Hbw. destruct (pc_kind pc =? PAWN); xor_solve.
   Qed.
 
   Lemma move_piece_inv s from to : piece_inv s -> from < 64 -> to < 64 -> from <> to -> nthd (r_board s) from 0 <> 0 ->
-    piece_inv (move_piece zt s from to).
+    nthd (r_board s) to 0 = 0 -> piece_inv (move_piece zt s from to).
   Proof.
-    intros [Hb [Hl [Hc [Hcov [Hk Hw]]]]] Hf Ht Hft Hne.
+    intros [Hb [Hl [Hc [Hcov [Hk [Hw [Hbk Hbw]]]]]]] Hf Ht Hft Hne Hempty.
     set (pc := nthd (r_board s) from 0) in *.
     assert (Hpc : 1 <= pc <= 12) by (pose proof (Hc from Hf); fold pc in H; lia).
     pose proof (Hcov from Hf Hne) as Hin. fold pc in Hin.
     assert (Hb1 : length (updN (r_board s) from 0) = 64%nat) by (rewrite updN_length; exact Hb).
     unfold piece_inv, move_piece, with_board, cover. cbn [r_board r_lists r_key]. fold pc. change NO_PIECE with 0.
-    split; [rewrite !updN_length; exact Hb|]. split; [rewrite updN_length; exact Hl|]. split; [|split; [|split]].
+    split; [rewrite !updN_length; exact Hb|]. split; [rewrite updN_length; exact Hl|]. split; [|split; [|split; [|split; [|split]]]].
     - intros i Hi. rewrite !nthd_upd_board by assumption. destruct (i =? to); [lia|]. destruct (i =? from); [lia|apply Hc; exact Hi].
     - intros i Hi. rewrite !nthd_upd_board by assumption. destruct (i =? to) eqn:E.
       + apply N.eqb_eq in E. subst i. intros _. rewrite nthd_upd_lists by (first [assumption|lia]). rewrite N.eqb_refl.
@@ -213,13 +255,21 @@ Section K.
       destruct (tgl_keys (toggle_piece zt (r_key s) pc from) pc to) as [_ ->]. destruct (tgl_keys (r_key s) pc from) as [_ ->].
       destruct (pc_kind pc =? PAWN); [|exact Hw].
       rewrite Hw, (xl_replace_first pc _ from to Hin). xor_solve.
+    - destruct (bk_upd (updN (r_board s) from 0) to pc Hb1 Ht) as [-> _]. destruct (bk_upd (r_board s) from 0 Hb Hf) as [-> _].
+      destruct (tgl_keys (toggle_piece zt (r_key s) pc from) pc to) as [-> _]. destruct (tgl_keys (r_key s) pc from) as [-> _].
+      rewrite nthd_updN_other by congruence. fold pc. rewrite Hempty, !cp0, !cp_toggle by lia. rewrite Hbk.
+      destruct (pc_kind pc =? PAWN); xor_solve.
+    - destruct (bk_upd (updN (r_board s) from 0) to pc Hb1 Ht) as [_ ->]. destruct (bk_upd (r_board s) from 0 Hb Hf) as [_ ->].
+      destruct (tgl_keys (toggle_piece zt (r_key s) pc from) pc to) as [_ ->]. destruct (tgl_keys (r_key s) pc from) as [_ ->].
+      rewrite nthd_updN_other by congruence. fold pc. rewrite Hempty, !cw0. unfold cw. rewrite Hbw.
+      destruct (pc_kind pc =? PAWN); xor_solve.
   Qed.
 
   (* set_meta leaves board and lists alone: the invariant survives when the new key has the old piece components *)
   Lemma set_meta_inv s a b c d e k h : piece_inv s -> k_piece k = k_piece (r_key s) -> k_pawn k = k_pawn (r_key s) ->
     piece_inv (set_meta s a b c d e k h).
   Proof.
-    intros [Hb [Hl [Hc [Hcov [Hk Hw]]]]] E1 E2. unfold piece_inv, cover, set_meta. cbn [r_board r_lists r_key].
+    intros [Hb [Hl [Hc [Hcov [Hk [Hw [Hbk Hbw]]]]]]] E1 E2. unfold piece_inv, cover, set_meta. cbn [r_board r_lists r_key].
     repeat split; try assumption; congruence.
   Qed.
 End K.
